@@ -29,10 +29,10 @@ import (
 
 func init() {
 	Register(&Check{ID: "C23", World: "B/cluster",
-		// a tenth of the runs are stress-relief plans: a span answered with success
+		// a fifth of the runs are stress-relief plans: a span answered with success
 		// while relief starts on its node must not vanish
 		Gen: func(r *Rng, tier string, p *Plan) {
-			if r.Bool(0.1) {
+			if r.Bool(0.2) {
 				p.N["stressb"] = 1
 				genStressB(r, tier, p)
 				return
